@@ -515,38 +515,46 @@ func c19R3(p *Prog, r *Report) {
 			var init ast.Expr
 			switch n := v.Node.(type) {
 			case *ast.ValueSpec:
-				if len(n.Values) == 1 {
-					init = n.Values[0]
-				} else if len(n.Values) == 0 {
-					init = nil
-				}
-				nInit++
-				worst := false
-				if higherBetter {
-					if init == nil {
-						worst = true
-					} else if k, isC := constInt(info, init); isC && k <= 0 {
-						worst = true
-					}
-				} else if init != nil {
-					s := exprStr(init)
-					if strings.HasSuffix(s, "math.MaxInt64") || s == "time.Duration(math.MaxInt64)" {
-						worst = true
-					}
-					// the configured timeout: a failed probe is recorded as exactly this value, so no
-					// history can average / peak above it
-					if sel, isSel := ast.Unparen(fc.Resolve(init)).(*ast.SelectorExpr); isSel && objOf(info, sel.X) == fc.ParamObj(2) && types.TypeString(info.TypeOf(sel), nil) == "time.Duration" && !c19IsTickerArg(fc, sel.Sel.Name) {
-						worst = true
-					}
-				}
-				if !worst || !fc.G.Dominates([]int{wait}, d) {
-					okInit, badInit = false, exprStr(n)
-				}
+				init = nil // zero value
 			case *ast.AssignStmt:
-				if objOf(info, n.Rhs[0]) == score && fc.G.EdgeDominates(trueEdges(cmp), d) {
+				for i, l := range n.Lhs {
+					if objOf(info, l) == best && len(n.Lhs) == len(n.Rhs) {
+						init = n.Rhs[i]
+					}
+				}
+				if init == nil {
+					okInit, badInit = false, exprStr(n)
 					continue
 				}
-				okInit, badInit = false, exprStr(n)
+				if objOf(info, init) == score && fc.G.EdgeDominates(trueEdges(cmp), d) {
+					continue // the update on a strictly better score
+				}
+			default:
+				okInit, badInit = false, exprStr(v.Node)
+				continue
+			}
+			// an initialisation (declaration with or without a value, `:=`, or a plain assignment)
+			nInit++
+			worst := false
+			if higherBetter {
+				if init == nil {
+					worst = true
+				} else if k, isC := constInt(info, init); isC && k <= 0 {
+					worst = true
+				}
+			} else if init != nil {
+				s := exprStr(init)
+				if strings.HasSuffix(s, "math.MaxInt64") || s == "time.Duration(math.MaxInt64)" {
+					worst = true
+				}
+				// the configured timeout: a failed probe is recorded as exactly this value, so no
+				// history can average / peak above it
+				if sel, isSel := ast.Unparen(fc.Resolve(init)).(*ast.SelectorExpr); isSel && objOf(info, sel.X) == fc.ParamObj(2) && types.TypeString(info.TypeOf(sel), nil) == "time.Duration" && !c19IsTickerArg(fc, sel.Sel.Name) {
+					worst = true
+				}
+			}
+			if !worst || !fc.G.Dominates([]int{wait}, d) {
+				okInit, badInit = false, exprStr(v.Node)
 			}
 		}
 		r.Check(okInit && nInit == 1, rule, pre+":best-score-starts-worst", p.posStr(rs.Pos()), "best score starts every round at the worst value", "the best score is not re-initialised each round to the worst possible value ("+badInit+"): a stale or too-good bound keeps better clients from being selected")
